@@ -3,7 +3,13 @@ import os, sys
 sys.path.insert(0, os.path.dirname(os.path.abspath(__file__)))
 from harness import core
 
-res = core.build(None, [], 'quick')
+import re
+ids = sorted(f[:-3] for f in os.listdir(os.path.join(core.VERIF, 'tools', 'props')) if re.fullmatch(r'C\d+\.py', f))
+res = core.BuildResult()
+for i in ids:
+    r = core.build(i, [], 'quick')   # builds Extract/Ex<i>.vo, the driver and Prop/<i>.vo
+    if not r.ok:
+        res.ok = False; res.failed += [f'{i}: {x}' for x in r.failed]
 rc, out = core.sh('timeout 3000 make -k -j16 2>&1 | tail -30', cwd=core.COQ, timeout=3100)
 print(out)
 print('model/driver build ok' if res.ok else 'BUILD PROBLEM: %s' % res.failed)
